@@ -349,21 +349,27 @@ def _symtab(tree):
     if [x.arg for x in _method(tree, 'SymbolTable', 'install_symbol').args.args] != ['self', 'name', 'handle'] or len(ins) != 3:
         raise Shape('SymbolTable.install_symbol: unexpected shape')
     loop = ins[0]
-    if ast.unparse(loop) != 'for block in self.scope_head:\n    if name in block:\n        block[name] = handle\n        return':
+    orders = {'self.scope_head': '.firstToLast', 'reversed(self.scope_head)': '.lastToFirst'}   # iteration order of the list
+    ends = {'self.scope_head[-1]': '.last', 'self.scope_head[0]': '.first'}
+    if not isinstance(loop, ast.For) or ast.unparse(loop.iter) not in orders or ast.unparse(loop) != \
+            'for block in %s:\n    if name in block:\n        block[name] = handle\n        return' % ast.unparse(loop.iter):
         raise Shape('SymbolTable.install_symbol: search loop: %s' % ast.unparse(loop))
-    out['installSearch'] = '.firstToLast'  # iteration order of the list scope_head
+    out['installSearch'] = orders[ast.unparse(loop.iter)]
     out['installHit'] = '.overwriteInPlace'
-    if [ast.unparse(s) for s in ins[1:]] != ['block = self.scope_head[-1]', 'block[name] = handle']:
-        raise Shape('SymbolTable.install_symbol: miss: %s' % [ast.unparse(s) for s in ins[1:]])
-    out['installMissAt'] = '.last'
+    miss = [ast.unparse(s) for s in ins[1:]]
+    if len(miss) != 2 or not miss[0].startswith('block = ') or miss[0][len('block = '):] not in ends \
+            or miss[1] != 'block[name] = handle':
+        raise Shape('SymbolTable.install_symbol: miss: %s' % miss)
+    out['installMissAt'] = ends[miss[0][len('block = '):]]
     fm = _method(tree, 'SymbolTable', 'find_symbol')
     fs = _strip_doc(fm.body)
     if [x.arg for x in fm.args.args] != ['self', 'name', 'default'] or [ast.unparse(d) for d in fm.args.defaults] != ['None'] \
             or len(fs) != 3:
         raise Shape('SymbolTable.find_symbol: unexpected shape')
-    if ast.unparse(fs[0]) != 'for block in self.scope_head:\n    if name in block:\n        return block[name]':
+    if not isinstance(fs[0], ast.For) or ast.unparse(fs[0].iter) not in orders or ast.unparse(fs[0]) != \
+            'for block in %s:\n    if name in block:\n        return block[name]' % ast.unparse(fs[0].iter):
         raise Shape('SymbolTable.find_symbol: search loop: %s' % ast.unparse(fs[0]))
-    out['findSearch'] = '.firstToLast'
+    out['findSearch'] = orders[ast.unparse(fs[0].iter)]
     if ast.unparse(fs[1]) != 'if default is not None:\n    self.install_symbol(name, default)\n    return default':
         raise Shape('SymbolTable.find_symbol: default: %s' % ast.unparse(fs[1]))
     if ast.unparse(fs[2]) != "return self.domain.find_symbol(name, 'constant')":
